@@ -68,6 +68,9 @@ func backends() []backend {
 }
 
 func (Engine) RunOne(t *core.Tape, prop, tier string, info *core.RunInfo) *core.Violation {
+	if t.Bool("prog.pick", 350) {
+		return runProgram(t, info)
+	}
 	if t.Bool("cfg.kind", 300) {
 		return runEd(t, info)
 	}
